@@ -11,7 +11,7 @@ PROP = "C15"
 TECHNIQUE = "exhaustive ms windows around second/day/year/epoch boundaries + Hypothesis-sampled instants vs. integer-arithmetic oracle (round trip + monotonicity)"
 RULE = ("one case = a batch of instants: (a) complete windows of every integer ms around boundary instants "
         "(second, day, year, leap day, epoch sign) in 1900..2200, (b) Hypothesis-drawn batches of uniform integer ms, "
-        "(c) batches of integer microsecond datetimes (naive / UTC-aware), (d) batches of decimal years; each instant goes "
+        "(c) batches of integer microsecond datetimes (naive / UTC-aware; also pandas.Timestamp and a datetime subclass), (d) batches of decimal years; each instant goes "
         "through epoch->datetime->epoch, datetime->epoch->datetime, string formats (with/without fraction, '+00:00'), "
         "decimal_year and its inverse, CSEPCatalog.get_datetimes; about half of the cases run under a non-UTC process time zone (TZ = "
         "UTC+5:30, US Pacific with DST, UTC-12, UTC+13 via time.tzset()). Non-trivial = batch contains an instant with non-zero ms "
